@@ -89,6 +89,54 @@ example :
   decide
 
 
+/-! ### the interleaving marker across occurrences (finding C13-sequence-from-first-occurrence) -/
+
+/-- full strength: an attr that carries a sequence marker in some occurrence still carries one
+after the occurrences are merged -/
+def sequence_marker_kept : Prop :=
+  ∀ (classes : List (List Attr)) (R : List Attr), reduceAttributes classes = some R →
+    ∀ c ∈ classes, ∀ a ∈ c, a.seq.isSome = true → ∀ m ∈ R, m.same a = true → m.seq.isSome = true
+
+/-- the two occurrences `a b` and `a b a b` of one element, as `ElementMapper` maps them
+(2 stands in for `sys.maxsize`) -/
+def seqWitness : List (List Attr) :=
+  let mk (n : String) (mx : Nat) (sq : Option Nat) : Attr :=
+    { tag := .element, name := n.toList, ns := none, index := 0, types := [], min := 1, max := mx, seq := sq }
+  [[mk "a" 1 none, mk "b" 1 none], [mk "a" 2 (some 1), mk "b" 2 (some 1)]]
+
+/-- it is false: the merged attrs take the restrictions of the first class that has them -/
+theorem sequence_marker_lost : ¬ sequence_marker_kept := by
+  intro h
+  have hr : reduceAttributes seqWitness = some
+      [{ tag := .element, name := "a".toList, ns := none, index := 0, types := [], min := 1, max := 2, seq := none },
+       { tag := .element, name := "b".toList, ns := none, index := 0, types := [], min := 1, max := 2, seq := none }] := by
+    decide
+  have := h seqWitness _ hr
+    [{ tag := .element, name := "a".toList, ns := none, index := 0, types := [], min := 1, max := 2, seq := some 1 },
+     { tag := .element, name := "b".toList, ns := none, index := 0, types := [], min := 1, max := 2, seq := some 1 }]
+    (by decide) _ (List.mem_cons_self) rfl _ (List.mem_cons_self) (by decide)
+  revert this
+  decide
+
+/-- the provable part: when all occurrences agree on the marker of every attr they share, the
+merged attr carries exactly that marker -/
+theorem sequence_marker_kept_partial (classes : List (List Attr)) (R : List Attr)
+    (hagree : ∀ c ∈ classes, ∀ a ∈ c, ∀ c' ∈ classes, ∀ a' ∈ c', a.same a' = true → a.seq = a'.seq)
+    (h : reduceAttributes classes = some R) :
+    ∀ m ∈ R, ∀ c ∈ classes, ∀ a ∈ c, m.same a = true → m.seq = a.seq := by
+  intro m hm c hc a ha hs
+  obtain ⟨c0, hc0, a0, ha0, hs0, hq⟩ := reduceAttributes_origin classes R h m hm
+  rw [← hq]
+  exact hagree c0 hc0 a0 ha0 c hc a ha (same_trans hs0 hs)
+
+/-- occurrences that agree: `a b a b` twice -/
+example :
+    let mk (n : String) : Attr :=
+      { tag := .element, name := n.toList, ns := none, index := 0, types := [], min := 1, max := 2, seq := some 1 }
+    let classes := [[mk "a", mk "b"], [mk "a", mk "b"]]
+    ∀ c ∈ classes, ∀ a ∈ c, ∀ c' ∈ classes, ∀ a' ∈ c', a.same a' = true → a.seq = a'.seq := by
+  decide
+
 /-! ### type inference -/
 
 /-- `match_type` answers with the string fallback or with the datatype of a table entry whose
